@@ -59,6 +59,11 @@ class _FakeAiohttpResponse:
         self._body = body
         self.url = url
 
+    @property
+    def content_type(self):
+        # aiohttp's parsed media type: lower case, without parameters
+        return (self.headers.get('Content-Type', 'application/octet-stream').split(';')[0].strip().lower()) or 'application/octet-stream'
+
     def raise_for_status(self):
         if self.status >= 400:
             raise aiohttp.ClientResponseError(None, (), status=self.status, message='status %d' % self.status, headers=self.headers)
